@@ -298,7 +298,7 @@ def TETHEX_STAGES():
         src = open(os.path.join(vlib.VERIF, 'bin', 'tethex_check.py')).read()
     except OSError:
         return set()
-    return {k for k in ('C03', 'C05') if ("'%s': dict(" % k) in src}
+    return {k for k in ('C03', 'C05', 'C11') if ("'%s': dict(" % k) in src}
 
 
 def extra_c03_collapse(tier, cov, failures):
@@ -324,25 +324,26 @@ def extra_c03_collapse(tier, cov, failures):
         cov['samples'].append(dict(collapse_stage=stats['samples'][:1]))
 
 
-def extra_c05_tethex(tier, cov, failures):
-    """C05 for the tetrahedral and hexahedral circulators: the stage lives in the tet/hex module
-    (spec/OVMTet.tla, OVMHex.tla define what each specialised circulator enumerates)."""
+def extra_tethex_stage(prop, tier, cov, failures):
+    """The part of C05 / C11 that concerns the tetrahedral and hexahedral kernels: the stage lives in
+    the tet/hex module (spec/OVMTet.tla, OVMHex.tla define the specialised circulators and the
+    acceptance conditions of the specialised add_face / add_cell)."""
     import subprocess
-    r = subprocess.run([sys.executable, os.path.join(vlib.VERIF, 'bin', 'tethex_check.py'), 'C05', '--tier', tier],
+    r = subprocess.run([sys.executable, os.path.join(vlib.VERIF, 'bin', 'tethex_check.py'), prop, '--tier', tier],
                        cwd=vlib.VERIF, stdout=subprocess.PIPE, stderr=subprocess.STDOUT, text=True, timeout=4 * 3600)
     stats = None
     for line in r.stdout.splitlines():
-        if line.startswith('C05STATS '):
-            stats = json.loads(line[len('C05STATS '):])
-        if line.startswith('VIOLATION property=C05'):
+        if line.startswith(prop + 'STATS '):
+            stats = json.loads(line[len(prop + 'STATS '):])
+        if line.startswith('VIOLATION property=' + prop):
             rp = line.split('replay=')[-1].strip()
-            failures.append(dict(msg='C05:tethex ' + line, path=[], script=rp, x=0, model=True, detail=r.stdout[-4000:], replay_path=rp))
+            failures.append(dict(msg=prop + ':tethex ' + line, path=[], script=rp, x=0, model=True, detail=r.stdout[-4000:], replay_path=rp))
     if r.returncode not in (0, 1) or stats is None:
-        raise MachineryError('tethex C05 stage failed (exit %d):\n%s' % (r.returncode, r.stdout[-3000:]))
-    log('C05 tet/hex circulator stage: %s' % json.dumps({k: stats.get(k) for k in ('states', 'transitions', 'traces_validated_against_impl', 'counters', 'violations', 'wall_s')}))
+        raise MachineryError('tethex %s stage failed (exit %d):\n%s' % (prop, r.returncode, r.stdout[-3000:]))
+    log('%s tet/hex stage: %s' % (prop, json.dumps({k: stats.get(k) for k in ('states', 'transitions', 'traces_validated_against_impl', 'counters', 'violations', 'wall_s')})))
     cov['states'] += stats.get('states', 0); cov['transitions'] += stats.get('transitions', 0)
     cov['traces_validated_against_impl'] += stats.get('traces_validated_against_impl', 0)
-    cov['tethex_circulator_stage'] = {k: stats.get(k) for k in ('states', 'transitions', 'traces_validated_against_impl', 'counters', 'configs', 'wall_s')}
+    cov['tethex_stage'] = {k: stats.get(k) for k in ('states', 'transitions', 'traces_validated_against_impl', 'counters', 'configs', 'wall_s')}
 
 
 def run_check(prop, tier, seed, replay=None, sim_only=False, sim_num=None):
@@ -402,8 +403,8 @@ def run_check(prop, tier, seed, replay=None, sim_only=False, sim_num=None):
             extra_c08(work, variant, cov, failures)
         if prop == 'C03' and not sim_only:
             extra_c03_collapse(tier, cov, failures)
-        if prop == 'C05' and not sim_only and 'C05' in TETHEX_STAGES():
-            extra_c05_tethex(tier, cov, failures)
+        if prop in ('C05', 'C11') and not sim_only and prop in TETHEX_STAGES():
+            extra_tethex_stage(prop, tier, cov, failures)
         if not sim_only and (tier == 'thorough' or prop in ('C01', 'C02')):
             run_tests_traced(cfg, work, cov, failures, crashes, drifts)
         sim = cfg.get('sim')
